@@ -314,8 +314,8 @@ impl Check for C15 {
     }
     fn count(&self, tier: Tier) -> u64 {
         match tier {
-            Tier::Quick => 20_000,
-            Tier::Thorough => 800_000,
+            Tier::Quick => 100_000,
+            Tier::Thorough => 3_000_000,
         }
     }
     fn generate(&self, rng: &mut Rng, _index: u64, _tier: Tier) -> C15Sc {
